@@ -92,6 +92,26 @@ theorem replay_changes_nothing {C : Type} (K : Crypto C) (ord : Order) (sw rw : 
     step K ord (after K ord sw rw ops) (.recv d (K.sealP d p)) = after K ord sw rw ops :=
   recv_replay_noop ord (inv_run ord ops _ (inv_init K sw rw) hn) d p hp
 
+/-- Every named move of the adversary — deliver an observed datagram again / late / out of order (`deliver`), deliver
+any function of an observed datagram: truncation, bit flips (`tamper`), deliver arbitrary bytes (`inject`) — is a
+`recv` step, so the "∀ hist" of the theorems in this file covers all of them, in any interleaving. -/
+theorem adversary_moves_are_recv {C : Type} (σ : Net C) (a : Adv C) (op : Op C) (h : a.toOp σ = some op) :
+    ∃ d c, op = .recv d c := by
+  cases a with
+  | deliver d i =>
+    simp only [Adv.toOp, Option.map_eq_some_iff] at h
+    obtain ⟨c, _, rfl⟩ := h; exact ⟨d, c, rfl⟩
+  | tamper d i f =>
+    simp only [Adv.toOp, Option.map_eq_some_iff] at h
+    obtain ⟨c, _, rfl⟩ := h; exact ⟨d, f c, rfl⟩
+  | inject d c =>
+    simp only [Adv.toOp, Option.some.injEq] at h
+    exact ⟨d, c, h.symm⟩
+
+example : ((Adv.tamper .c2s 0 (fun c => { c with rsv := true })).toOp (after toy .afterAuth 10 10 exOps)).isSome = true ∧
+    ((Adv.deliver (C := ToyC) .c2s 7).toOp (after toy .afterAuth 10 10 exOps)).isSome = false := by
+  constructor <;> rfl
+
 /-! ### 2. refinement: every packet-level history is a frame-level history of the C01 model -/
 
 /-- ∀ hist (with AEAD integrity), every stream of either direction is in a state the C01 model reaches by some C01
